@@ -20,6 +20,11 @@ use raw::{
 // <https://github.com/harfbuzz/harfbuzz/blob/c7ef6a2ed58ae8ec108ee0962bef46f42c73a60c/src/hb-limits.hh#L53>
 const MAX_NESTING_DEPTH: usize = 64;
 
+// To bound the time spent in lookups whose (possibly aliased) rule sets
+// reference an enormous number of nested lookups. Matches HB
+// <https://github.com/harfbuzz/harfbuzz/blob/c7ef6a2ed58ae8ec108ee0962bef46f42c73a60c/src/hb-limits.hh#L45>
+const MAX_LOOKUP_VISIT_COUNT: usize = 35000;
+
 /// Determines the fidelity with which we apply shaping in the
 /// autohinter.
 ///
@@ -406,6 +411,7 @@ struct GsubHandler<'a, 'b> {
     min_gid: usize,
     max_gid: usize,
     lookup_depth: usize,
+    lookup_visit_count: usize,
     visited_set: &'a mut VisitedLookupSet<'b>,
 }
 
@@ -431,6 +437,7 @@ impl<'a, 'b> GsubHandler<'a, 'b> {
             min_gid,
             max_gid: 0,
             lookup_depth: 0,
+            lookup_visit_count: 0,
             visited_set,
         }
     }
@@ -440,6 +447,11 @@ impl<'a, 'b> GsubHandler<'a, 'b> {
         if self.lookup_depth == MAX_NESTING_DEPTH {
             return Err(ProcessLookupError::ExceededMaxDepth);
         }
+        // General protection against runaway nested lookup references
+        if self.lookup_visit_count >= MAX_LOOKUP_VISIT_COUNT {
+            return Err(ProcessLookupError::ExceededMaxVisits);
+        }
+        self.lookup_visit_count += 1;
         // Skip lookups that have already been processed
         if !self.visited_set.insert(lookup_index) {
             return Ok(());
@@ -704,6 +716,7 @@ impl<'a> VisitedLookupSet<'a> {
 #[derive(PartialEq, Debug)]
 enum ProcessLookupError {
     ExceededMaxDepth,
+    ExceededMaxVisits,
 }
 
 #[cfg(test)]
